@@ -19,8 +19,15 @@ import time
 
 VERIF = os.path.dirname(os.path.dirname(os.path.abspath(__file__)))
 REPO = os.environ.get("VERIF_REPO", "/repo")
-COQ = os.path.join(VERIF, "coq")
 CACHE = os.environ.get("VERIF_CACHE", os.path.join(VERIF, ".cache"))
+COQ = os.path.join(VERIF, "coq")
+if REPO != "/repo":
+    # development runs against a scratch repository (tools/seedtest.py) work on a private copy
+    # of the Coq development, so the regenerated tables never leak into /verif/coq
+    COQ = os.path.join(CACHE, "coq")
+    if not os.path.exists(COQ):
+        os.makedirs(CACHE, exist_ok=True)
+        shutil.copytree(os.path.join(VERIF, "coq"), COQ, symlinks=True)
 HARNESS = os.path.join(VERIF, "harness")
 TARGET = os.path.join(CACHE, "target")
 BIN = os.path.join(CACHE, "bin")
@@ -113,14 +120,33 @@ def coq_project_files():
     return files
 
 
-def coq_make(jobs=NCPU, timeout=3000):
-    """Full .vo build of everything listed in _CoqProject (never -vos/-vok)."""
+def coq_generate():
+    """Runs the translator: coq/Generated/Tables.v is regenerated from REPO's current source
+    (rewritten only when its content changes, so unchanged sources cost no rebuild)."""
+    rc, out, err, _ = sh([sys.executable, os.path.join(VERIF, "tools", "extract.py")], cwd=VERIF, timeout=300,
+                         env={"VERIF_REPO": REPO, "VERIF_COQ": COQ})
+    return rc == 0, (out + err)
+
+
+def coq_modules_of(text):
+    """.vo targets (relative to coq/) of the `From V Require Import A B.` lines in [text]."""
+    names = []
+    for m in re.finditer(r"From\s+V\s+Require\s+(?:Import|Export)\s+([^.]*)\.", text):
+        names += m.group(1).split()
+    index = {os.path.basename(p)[:-2]: os.path.relpath(p, COQ) for p in coq_sources()
+             if not os.path.relpath(p, COQ).startswith("Properties")}
+    return sorted({index[n] + "o" for n in names if n in index})
+
+
+def coq_make(jobs=NCPU, timeout=3000, targets=None):
+    """Full .vo build (never -vos/-vok) of everything listed in _CoqProject, or of the given
+    .vo targets and what they depend on."""
     if not os.path.exists(os.path.join(COQ, "Makefile")) or \
             os.path.getmtime(os.path.join(COQ, "Makefile")) < os.path.getmtime(os.path.join(COQ, "_CoqProject")):
         rc, out, err, _ = sh(["coq_makefile", "-f", "_CoqProject", "-o", "Makefile"], cwd=COQ, timeout=120)
         if rc != 0:
             return False, out + err
-    rc, out, err, dt = sh(["make", f"-j{jobs}"], cwd=COQ, timeout=timeout)
+    rc, out, err, dt = sh(["make", f"-j{jobs}"] + list(targets or []), cwd=COQ, timeout=timeout)
     return rc == 0, (out + err)
 
 
@@ -222,6 +248,9 @@ def coq_eval(pid, shards, header, timeout=1500):
     d = os.path.join(CACHE, "cases", pid)
     shutil.rmtree(d, ignore_errors=True)
     os.makedirs(d, exist_ok=True)
+    ok, mlog = coq_make(targets=coq_modules_of(header))
+    if not ok:
+        return [("", "model files do not build: " + mlog[-1500:]) for _ in shards]
     paths = []
     for i, body in enumerate(shards):
         p = os.path.join(d, f"cases_{i}.v")
@@ -412,7 +441,12 @@ class Check:
     # -- obligations
     def coq_obligations(self):
         bad = coq_forbidden_scan()
-        ok, mlog = coq_make()
+        gok, glog = coq_generate()
+        ppath = os.path.join(COQ, "Properties", f"{self.pid}.v")
+        targets = coq_modules_of(open(ppath).read()) if os.path.exists(ppath) else None
+        ok, mlog = coq_make(targets=targets)
+        if not gok:
+            ok, mlog = False, "translator tools/extract.py failed: " + glog[-1500:]
         res = coq_check_property_file(self.pid) if ok else {
             "obligations": 1, "discharged": 0, "errors": ["make failed: " + mlog[-2500:]],
             "axioms": [], "theorems": [], "cmd": "make", "file": f"Properties/{self.pid}.v"}
